@@ -14,7 +14,9 @@ import (
 	"unicode/utf8"
 
 	"github.com/tobgu/qframe"
+	"github.com/tobgu/qframe/config/newqf"
 	"github.com/tobgu/qframe/types"
+	"verifharness/hlib"
 )
 
 type obsCell struct {
@@ -283,3 +285,57 @@ func observersDisagree(qf qframe.QFrame) string {
 }
 
 var _ = types.Int
+
+// observerSweep serialises every prefix (Slice(0, k), k = 0..n) of a fixed frame and of its sorted version, so that
+// every boundary of any internal buffering falls on the last row of some prefix: the JSON must be valid and hold
+// k records, the CSV must hold a header and k rows with the expected first cell.
+func observerSweep(s *hlib.Suite, n int) {
+	ids := make([]int, n)
+	strs := make([]string, n)
+	for i := range ids {
+		ids[i] = 100000 + (i*7919)%n
+		strs[i] = fmt.Sprintf("r%d", i%977)
+	}
+	base := qframe.New(map[string]types.DataSlice{"I": ids, "S": strs}, newqf.ColumnOrder("I", "S"))
+	for _, fr := range []struct {
+		name string
+		qf   qframe.QFrame
+	}{{"fresh", base}, {"sorted", base.Sort(qframe.Order{Column: "I"})}} {
+		bad := ""
+		for k := 0; k <= n && bad == ""; k++ {
+			sl := fr.qf.Slice(0, k)
+			var jb, cb bytes.Buffer
+			if err := sl.ToJSON(&jb); err != nil {
+				bad = fmt.Sprintf("ToJSON of %d rows failed: %v", k, err)
+				break
+			}
+			out := jb.Bytes()
+			if !json.Valid(out) {
+				bad = fmt.Sprintf("ToJSON of the first %d rows is not valid JSON (… %q)", k, string(out[maxInt(0, len(out)-30):]))
+				break
+			}
+			if got := bytes.Count(out, []byte(`"I":`)); got != k {
+				bad = fmt.Sprintf("ToJSON of the first %d rows holds %d records", k, got)
+				break
+			}
+			if err := sl.ToCSV(&cb); err != nil {
+				bad = fmt.Sprintf("ToCSV of %d rows failed: %v", k, err)
+				break
+			}
+			if got := bytes.Count(cb.Bytes(), []byte("\n")); got != k+1 {
+				bad = fmt.Sprintf("ToCSV of the first %d rows holds %d lines", k, got)
+			}
+		}
+		if bad != "" {
+			s.Fail(s.NextID(), "observers: "+bad, map[string]interface{}{"family": "observer sweep", "frame": fr.name, "rows": n, "props": []string{"C09", "C14"}}, "")
+		}
+		s.Count("observer-sweep-prefixes")
+	}
+}
+
+func maxInt(a, b int) int {
+	if a > b {
+		return a
+	}
+	return b
+}
